@@ -376,6 +376,11 @@ def rule_cd(ck, R, eng, ps):
     # containment
     eng2 = R.eng
     psm = R.paths('reg_entry_is_in_memory', 'C04.d')
+    if psm is not None and any(p.calls('ra_find_area_by_addr') for p in psm):
+        # the area is found by the table's own look-up function: it is looked into, so that the path says which area
+        from .regs import INLINE_SMALL
+        eng2 = sym.Engine(R.u, sizeof=R.so, inline=set(INLINE_SMALL) | {'ra_find_area_by_addr', 'ra_addr_is_part_of', 'ra_reg_is_part_of', 'ra_reg_fits_into'})
+        psm = R.paths('reg_entry_is_in_memory', 'C04.d', eng2)
     if psm is not None:
         bad = None
         okpath = 0
@@ -625,6 +630,15 @@ def link_gate(ck, R, eng, ps):
             if not ok:
                 bad = bad or ('%s is written at %s on a path where reg_entry_is_in_memory has not accepted that entry ({%s}): the register is linked '
                               'without the containment test address + size <= area end' % (fmt(k), st.where(), '; '.join(fmt(c) for c in p.cond_terms()[-3:])[:200]))
+    if bad is None and nlink == 0:
+        # register_init itself links nothing: then the containment test does, on its accepting paths only
+        gp = R.paths('reg_entry_is_in_memory', 'C04.d', sym.Engine(R.u, sizeof=R.so, inline={'ra_reg_is_part_of', 'ra_addr_is_part_of', 'ra_reg_fits_into', 'ra_find_area_by_addr'}))
+        for p in gp or []:
+            ls = [st for st in p.stores() if st.name[0] == 'f' and st.name[2] in ('area', 'offset')]
+            if ls and p.end == 'return':
+                nlink += 1
+                if p.ret is None or p.ret == C(0):
+                    bad = bad or 'reg_entry_is_in_memory links the entry (%s) on a path that refuses it' % fmt(ls[0].name)
     ck.verdict(bad is None and nlink >= 1, 'C04.d', 'register_init:link-gate', R.where('register_init'),
                'entries are linked (area/offset written) in register_init only after reg_entry_is_in_memory accepted them' if bad is None and nlink else (bad or 'no link store found in register_init'))
 
@@ -680,10 +694,15 @@ def run(ck):
     # one-line forwarders register_init may be written with are looked into (the rules speak of what they forward to)
     eng = sym.Engine(R.u, sizeof=R.so, inline={'need_to_load_default', 'reg_entry_load_default', 'ra_reg_is_part_of'})
     for_headers(R, 'C04.c', 'register_init', [(1, 'areas'), (1, 'entries'), (0, 'areas'), (0, 'entries'), (0, 'areas')])
-    scan_rule(R, 'C04.d', 'reg_entry_is_in_memory', 'areas')
+    _pm = R.paths('reg_entry_is_in_memory', 'C04.d')
+    if _pm is not None and any(p.calls('ra_find_area_by_addr') for p in _pm):
+        from .regs import INLINE_SMALL as _IS
+        scan_rule(R, 'C04.d', 'reg_entry_is_in_memory', 'areas', eng=sym.Engine(R.u, sizeof=R.so, inline=set(_IS) | {'ra_find_area_by_addr', 'ra_addr_is_part_of', 'ra_reg_is_part_of', 'ra_reg_fits_into'}))
+    else:
+        scan_rule(R, 'C04.d', 'reg_entry_is_in_memory', 'areas')
     scan_rule(R, 'C04.e', 'ra_first_entry_of_next', 'entries', ('v', 'start'))
     flag_bits(ck, R)
-    wrap_free(R, 'C04.g', 'reg_entry_is_in_memory', inline={'ra_reg_is_part_of', 'ra_addr_is_part_of', 'ra_reg_fits_into'})
+    wrap_free(R, 'C04.g', 'reg_entry_is_in_memory', inline={'ra_reg_is_part_of', 'ra_addr_is_part_of', 'ra_reg_fits_into', 'ra_find_area_by_addr'})
     wrap_free(R, 'C04.g', 'register_init')
     ps = R.paths('register_init', 'C04.a', eng)
     if ps is not None:
